@@ -2,6 +2,7 @@ package main
 
 import (
 	"fmt"
+	"reflect"
 	"go/constant"
 	"go/token"
 	"go/types"
@@ -15,6 +16,9 @@ import (
 type Config struct {
 	MergeCalls  bool
 	MergeIfs    bool
+	LazyIf      bool
+	Replace     map[string]string
+	HarnessPkg  string
 	NoMerge     []string // substrings of function names never merged
 	Unwind      int
 	MaxSteps    int
@@ -54,6 +58,8 @@ type Report struct {
 	Reached      map[string]int
 	Samples      []string
 	Forks        int
+	LazyForks    int
+	Infeasible   int
 	Merges       int
 	MergeFails   int
 	Steps        int
@@ -82,6 +88,7 @@ type Exec struct {
 	noMergePats []string
 	noMergeMemo map[*ssa.Function]bool
 	initDone    map[*ssa.Function]bool
+	boundOK     map[int]bool
 }
 
 func (ex *Exec) isNoMerge(fn *ssa.Function) bool {
@@ -118,21 +125,46 @@ func (ex *Exec) modelHolds(st *State, t *Term) (bool, bool) {
 	if st.model == nil {
 		return false, false
 	}
-	memo := map[*Term]uint64{}
-	return EvalTerm(t, st.model, memo) != 0, true
+	return EvalTerm(t, st.model, ex.memoFor(st)) != 0, true
+}
+
+// memoFor returns the evaluation cache for the state's current model (terms are
+// immutable, so the cache is valid for as long as the model object is the same).
+func (ex *Exec) memoFor(st *State) map[*Term]uint64 {
+	p := reflect.ValueOf(st.model).Pointer()
+	if st.memoPtr != p || st.memo == nil {
+		st.memo = map[*Term]uint64{}
+		st.memoPtr = p
+	}
+	return st.memo
 }
 
 func (ex *Exec) modelHoldsAll(st *State) (bool, bool) {
 	if st.model == nil {
 		return false, false
 	}
-	memo := map[*Term]uint64{}
+	memo := ex.memoFor(st)
 	for _, c := range st.pc {
 		if EvalTerm(c, st.model, memo) == 0 {
 			return false, true
 		}
 	}
 	return true, true
+}
+
+// pathFeasible: is the path condition satisfiable (unknown counts as feasible)?
+func (ex *Exec) pathFeasible(st *State) bool {
+	if ok, have := ex.modelHoldsAll(st); have && ok {
+		return true
+	}
+	if ex.sol == nil {
+		return true
+	}
+	r, m := ex.sol.Check(st.pc, true, nil)
+	if r == Sat {
+		st.model = m
+	}
+	return r != Unsat
 }
 
 // feasible reports whether pc ∧ cond is satisfiable; returns a model when sat.
@@ -147,6 +179,9 @@ func (ex *Exec) feasible(st *State, cond *Term) (Res, Model) {
 		return Sat, st.model
 	}
 	q := append(append([]*Term{}, st.pc...), cond)
+	if len(st.threads) > 0 && len(st.thread().stack) > 0 {
+		ex.sol.Purpose = "feasibility at " + ex.site(st.thread().top())
+	}
 	r, m := ex.sol.Check(q, true, nil)
 	return r, m
 }
@@ -393,7 +428,7 @@ func (ex *Exec) mergeValue(c *Term, a, b Value) (Value, bool) {
 		}
 		var r *Agg
 		for i := range x.E {
-			if x.E[i] == y.E[i] {
+			if sameValue(x.E[i], y.E[i]) {
 				continue
 			}
 			m, ok := ex.mergeValue(c, x.E[i], y.E[i])
@@ -501,7 +536,7 @@ func (ex *Exec) mergeValue(c *Term, a, b Value) (Value, bool) {
 		if ok && x.Pos == y.Pos && len(x.Keys) == len(y.Keys) && x.IsStr == y.IsStr && len(x.Runes) == len(y.Runes) {
 			same := true
 			for i := range x.Keys {
-				if x.Keys[i] != y.Keys[i] || x.Vals[i] != y.Vals[i] {
+				if !sameValue(x.Keys[i], y.Keys[i]) || !sameValue(x.Vals[i], y.Vals[i]) {
 					same = false
 				}
 			}
@@ -668,16 +703,20 @@ func (ex *Exec) endPath(st *State, why string) {
 	if ex.depth == 0 || why != "" {
 		// counted below
 	}
-	ex.rep.Paths++
-	if why == "done" && len(ex.rep.Witnesses) < 1 && ex.sol != nil {
-		m := st.model
+	if why == "done" && ex.sol != nil {
 		if ok, have := ex.modelHoldsAll(st); !have || !ok {
-			_, m = ex.sol.Check(st.pc, true, nil)
+			r, m := ex.sol.Check(st.pc, true, nil)
+			if r == Unsat {
+				ex.rep.Infeasible++
+				return
+			}
+			st.model = m
 		}
-		if m != nil {
-			ex.rep.Witnesses = append(ex.rep.Witnesses, ex.nondetVals(st, m))
+		if st.model != nil && len(ex.rep.Witnesses) < 1 {
+			ex.rep.Witnesses = append(ex.rep.Witnesses, ex.nondetVals(st, st.model))
 		}
 	}
+	ex.rep.Paths++
 	for _, r := range st.reached {
 		ex.rep.Reached[r]++
 	}
